@@ -136,8 +136,10 @@ package region
 //@   ensures[C02,C03] forall(k, k != id ==> c.sent[k] == old(c.sent[k]))
 
 //@ func region.returnResult
-//@   modifies F.region.multi.*, M.hrpc.Call, X.delivered, F.pb.GetResponse.Result, F.pb.MutateResponse.Result
+//@   modifies X.owed, object(cast(c, "*region.multi")), contents(cast(c, "*region.multi").calls), X.delivered, X.owed, F.pb.GetResponse.Result, F.pb.MutateResponse.Result
 //@   requires c != nil
+//@   ensures[C03] err != nil && (typeis(c, "*region.multi") ==> old(liveDistinct(cast(c, "*region.multi")))) ==> deliveredOnce(c)
+//@   ensures[C03] owedShrinks()
 //@   requires typeis(c, "*region.multi") && err == nil ==> typeis(msg, "*pb.MultiResponse") && multiWF(cast(c, "*region.multi")) && multiRespOK(cast(c, "*region.multi"), cast(msg, "*pb.MultiResponse")) && pbwf()
 //@   panics never[C11]
 
@@ -147,7 +149,8 @@ package region
 //@   ensures[C11] r0 != nil
 
 // every multi registered in the sent-calls table was built from batchable calls
-//@ pred region.sentWF(c) = forall(k, (haskey(c.sent, k) ==> c.sent[k] != nil) && (typeis(c.sent[k], "*region.multi") ==> multiWF(cast(c.sent[k], "*region.multi"))))
+//@ pred region.tableWF(t) = forall(k, (haskey(t, k) ==> t[k] != nil) && (typeis(t[k], "*region.multi") ==> multiWF(cast(t[k], "*region.multi"))))
+//@ pred region.sentWF(c) = tableWF(c.sent)
 
 //@ func region.(*client).receive
 //@   requires c.sent != nil && sentWF(c)
@@ -160,11 +163,17 @@ package region
 
 //@ func region.freeMulti
 //@   requires m != nil
-//@   modifies F.region.multi.*, M.hrpc.Call
+//@   modifies object(m), contents(m.calls)
 //@   panics never[C11]
 
 //@ func region.(*multi).returnResults
-//@   modifies F.region.multi.*, M.hrpc.Call, X.delivered, F.pb.GetResponse.Result, F.pb.MutateResponse.Result
+//@   at call freeMulti#1 ghost owed[m] == 0
+//@   ensures[C03] ghostat("owed", m) == 0 && owedShrinks()
+//@   modifies X.owed, object(m), contents(m.calls), X.delivered, X.owed, F.pb.GetResponse.Result, F.pb.MutateResponse.Result
+//@   ensures[C03] err != nil && old(liveDistinct(m)) ==> multiDeliveredOnce(m)
+//@   loop 1 invariant[C03] len(m.calls) == old(len(m.calls)) && forall(k, 0 <= k && k < len(m.calls), m.calls[k] == old(m.calls[k]))
+//@   loop 1 invariant[C03] old(liveDistinct(m)) ==> forall(k, 0 <= k && k < len(m.calls) && m.calls[k] != nil, ghostat("delivered", m.calls[k]) == ghostold("delivered", m.calls[k]) + ite(k < idx, 1, 0))
+//@   loop 1 invariant[C03] forall(x, forall(k, 0 <= k && k < len(m.calls), m.calls[k] != x) ==> ghostat("delivered", x) == ghostold("delivered", x))
 //@   requires err == nil ==> typeis(msg, "*pb.MultiResponse") && multiWF(m) && multiRespOK(m, cast(msg, "*pb.MultiResponse")) && pbwf()
 //@   panics never[C11]
 
@@ -213,3 +222,154 @@ package region
 //@   ensures[C18] ghostat("net", c) == old(ghostat("net", c)) - 1
 //@   ensures[C18] r0 == nil ==> inflightInv(c)
 //@   ensures[C18] forall(k, k != c ==> ghostat("net", k) == old(ghostat("net", k)))
+
+// ---- request framing and emission (C05), registration before the write (C03), one count per sent request (C18) ----
+
+//@ func region.getHeader
+//@   trusted "pool discipline: headers are Reset before they are put back (returnHeader), sync.Pool.New yields a zero header"
+//@   modifies nothing
+//@   ensures r0 != nil && r0.CellBlockMeta == nil && r0.Priority == nil
+//@ func region.returnHeader
+//@   modifies F.pb.RequestHeader.*
+
+//@ func region.marshalProto
+//@   requires rpc != nil
+//@   modifies F.pb.RequestHeader.*
+//@   panics never[C05]
+//@   at call MarshalAppend#1 assert[C05] header.CallId != nil && *header.CallId == callID && header.MethodName != nil && *header.MethodName == rpc.Name()
+//@   at call MarshalAppend#1 assert[C05] (cellblocksLen > 0) == (header.CellBlockMeta != nil) && (cellblocksLen > 0 ==> header.CellBlockMeta.Length != nil && *header.CellBlockMeta.Length == cellblocksLen)
+//@   at call MarshalAppend#1 assert[C05] (hrpc.GetPriority(rpc) > 0) ==> header.Priority != nil && *header.Priority == hrpc.GetPriority(rpc)
+// the 4-byte prefix is the number of bytes that follow it (protobuf part + trailing cellblocks); frames are limited to 4 GiB by the protocol
+//@   ensures[C05] r1 == nil ==> len(r0) >= 4 && be32(r0) == (len(r0) - 4 + cellblocksLen) % 4294967296
+//@   ensures[C05] (r1 == nil) == (r0 != nil)
+
+//@ func region.canSerializeCellBlocks.CellBlocksEnabled() (r)
+//@   modifies nothing
+// (assumed of the implementations: the returned size is the number of payload bytes of the returned cellblocks)
+//@ func region.canSerializeCellBlocks.SerializeCellBlocks(cbs) (msg, out, n)
+//@   modifies nothing
+//@   ensures msg != nil && n == total(out)
+//@ func hrpc.Call.ToProto() (msg)
+//@   modifies nothing
+//@ func region.newBuffer
+//@   requires size >= 0
+//@   modifies nothing
+//@   ensures len(r0) == size && fresh(r0)
+
+// Block writer (C15): <4 bytes: total uncompressed length> then per chunk <4 bytes: encoded length><encoded chunk>.
+// total(cbs) = payload bytes not yet read; every chunk holds between 1 and ChunkLen payload bytes, the loop
+// ends exactly when the payload is exhausted, and the `unexpected error` panic is unreachable.
+//@ func region.(*compressor).compressCellblocks
+//@   requires c != nil && c.Codec != nil && c.Codec.ChunkLen() >= 1
+//@   requires total(cbs) == uncompressedLen
+//@   modifies nothing
+//@   panics never[C15]
+//@   ensures[C15] len(r0) >= 4 && be32(r0) == uncompressedLen
+//@   loop 1 invariant[C15] 0 <= total(cbs) && total(cbs) <= uncompressedLen
+//@   loop 1 invariant[C15] len(b) >= 4 && be32(b) == uncompressedLen && refof(b) != refof(uncompressedBuffer)
+//@   loop 1 invariant[C15] len(uncompressedBuffer) == ite(uncompressedLen < c.Codec.ChunkLen(), uncompressedLen, c.Codec.ChunkLen())
+//@   loop 1 decreases[C15] total(cbs)
+//@ func region.freeBuffer
+//@   modifies nothing
+//@ func region.(*client).Addr
+//@   modifies nothing
+//@ func region.(*client).write
+//@   requires c.conn != nil
+//@   modifies X.written
+//@   ensures ghost("written") == old(ghost("written")) + 1
+
+//@ func region.(*client).send
+//@   requires rpc != nil && c.sent != nil && c.conn != nil && inflightInv(c) && netRange(c) && codecWF(c)
+//@   modifies F.region.client.id, F.region.client.inFlight, D.map[uint32]hrpc.Call, V.map[uint32]hrpc.Call, C.map[uint32]hrpc.Call, F.pb.RequestHeader.*, X.written, X.net, X.armed
+//@   panics never[C05]
+// every request with trailing cellblocks is emitted while a lock of the client is held (or, without cellblocks, in one Write call):
+// concurrent senders cannot interleave inside a frame whatever kind of net.Conn it is (C05)
+// the cellblock length announced in the header is the number of cellblock bytes that follow the frame, with or without compression
+//@   at call marshalProto#1 assert[C05] cellblocksLen == total(cellblocks) % 4294967296
+//@   at call WriteTo#1 assert[C05] ghost("nheld") > 0
+//@   at call write#1 assert[C05] ghost("nheld") > 0
+// the call is registered before anything is written, and stays registered on every return path (C03)
+//@   ensures[C03] haskey(c.sent, r0) && c.sent[r0] == rpc
+//@   ensures[C03] forall(k, k != r0 ==> c.sent[k] == old(c.sent[k]) && haskey(c.sent, k) == old(haskey(c.sent, k)))
+//@   ensures[C03] r1 != nil && ghost("written") != old(ghost("written")) ==> typeis(r1, "region.ServerError")
+// exactly one count per completed send, none before the bytes have been written (C18)
+//@   ensures[C18] r1 == nil ==> ghostat("net", c) == old(ghostat("net", c)) + 1 && ghost("written") == old(ghost("written")) + 1 && inflightInv(c)
+//@   ensures[C18] ghost("written") == old(ghost("written")) ==> ghostat("net", c) == old(ghostat("net", c))
+
+// ---- failure of a connection completes every outstanding call exactly once (C03) ----
+// Ghost ledger delivered[call] counts the results handed to a call (sends on its result channel).
+
+// live calls of a multi are pairwise different
+//@ pred region.liveDistinct(m) = forall(p, q, 0 <= p && p < q && q < len(m.calls) && m.calls[p] != nil, m.calls[p] != m.calls[q])
+// every live call of m (as it was before) got exactly one more result, nobody else got any
+//@ pred region.multiDeliveredOnce(m) = forall(k, 0 <= k && k < old(len(m.calls)) && old(m.calls[k]) != nil, ghostat("delivered", old(m.calls[k])) == ghostold("delivered", old(m.calls[k])) + 1) && forall(x, forall(k, 0 <= k && k < old(len(m.calls)), old(m.calls[k]) != x) ==> ghostat("delivered", x) == ghostold("delivered", x))
+//@ pred region.singleDeliveredOnce(c) = ghostat("delivered", c) == ghostold("delivered", c) + 1 && forall(x, x != c ==> ghostat("delivered", x) == ghostold("delivered", x))
+//@ pred region.deliveredOnce(c) = ite(typeis(c, "*region.multi"), multiDeliveredOnce(cast(c, "*region.multi")), singleDeliveredOnce(c))
+// deliveries only ever settle what is owed
+//@ pred region.owedShrinks() = forall(x, ghostat("owed", x) == ghostold("owed", x) || ghostat("owed", x) == 0)
+//@ pred region.nothingDelivered() = forall(x, ghostat("delivered", x) == ghostold("delivered", x))
+
+//@ func region.(*client).failSentRPCs
+//@   requires c.sent != nil && sentWF(c)
+//@   modifies F.region.client.sent, D.map[uint32]hrpc.Call, V.map[uint32]hrpc.Call, C.map[uint32]hrpc.Call, F.region.multi.*, M.hrpc.Call, X.delivered, X.owed, F.pb.GetResponse.Result, F.pb.MutateResponse.Result
+//@   panics never[C03]
+// the table is emptied under its lock, then every call that was in it is handed exactly one ErrClientClosed (one
+// returnResult per visited entry; each entry of the old table is visited once)
+//@   ensures[C03] c.sent != nil && len(c.sent) == 0 && forall(k, !haskey(c.sent, k)) && owedShrinks()
+//@   loop 1 invariant[C03] owedShrinks()
+
+//@ func region.(*client).fail
+//@   requires c.sent != nil && sentWF(c)
+//@   requires failWF(c)
+//@   modifies F.region.client.sent, D.map[uint32]hrpc.Call, V.map[uint32]hrpc.Call, C.map[uint32]hrpc.Call, F.region.multi.*, M.hrpc.Call, X.delivered, X.owed, F.pb.GetResponse.Result, F.pb.MutateResponse.Result, X.oncedone, X.closed
+//@   panics never[C03]
+//@   ensures[C03] ghostat("oncedone", ref(c.failOnce)) == 1 && c.sent != nil && owedShrinks()
+//@   ensures[C03] old(ghostat("oncedone", ref(c.failOnce))) == 0 ==> len(c.sent) == 0 && ghostat("closed", c.done) == 1
+//@   ensures[C03] old(ghostat("oncedone", ref(c.failOnce))) != 0 ==> nothingDelivered()
+//@   ensures[C03] old(ghostat("oncedone", ref(c.failOnce))) != 0 ==> len(c.sent) == old(len(c.sent))
+//@   ensures[C03] old(ghostat("oncedone", ref(c.failOnce))) != 0 ==> forall(k, c.sent[k] == old(c.sent[k]) && haskey(c.sent, k) == old(haskey(c.sent, k)))
+
+// configuration invariant: a configured compressor has a codec with a positive chunk size
+//@ pred region.codecWF(c) = c.compressor != nil ==> c.compressor.Codec != nil && c.compressor.Codec.ChunkLen() >= 1
+//@ pred region.failWF(c) = ghostat("oncedone", ref(c.failOnce)) == 0 ==> c.done != nil && ghostat("closed", c.done) == 0
+
+//@ func region.(*client).trySend
+//@   requires rpc != nil && c.sent != nil && c.conn != nil && sentWF(c) && inflightInv(c) && netRange(c) && failWF(c) && codecWF(c)
+//@   requires forall(k, haskey(c.sent, k) ==> c.sent[k] != rpc)
+//@   requires typeis(rpc, "*region.multi") ==> multiWF(cast(rpc, "*region.multi")) && liveDistinct(cast(rpc, "*region.multi"))
+//@   panics never[C03]
+// a non-nil error is returned only by the goroutine that removed the call from the sent table itself: the caller then
+// owns the (single) delivery; nothing has been delivered to the call by trySend in that case (C03)
+//@   ensures[C03] r0 != nil ==> forall(k, c.sent[k] != rpc || !haskey(c.sent, k))
+//@   at return 1 ghost owed[rpc] == 1
+//@   requires ghostat("owed", rpc) == 0
+//@   modifies all
+//@   ensures[C03] ghostat("owed", rpc) == ite(r0 != nil, 1, 0)
+
+// ---- the batching loop never drops a multi whose send failed (C03) ----
+// Ghost owed[call] = 1: the call was taken out of the sent table by a failed trySend and its caller has not delivered the
+// error yet. trySend sets it together with its non-nil error; returnResults clears it; a multi may be abandoned (replaced
+// by a fresh one, or left behind on exit) only when nothing is owed to it.
+//@ func region.newMulti
+//@   trusted "pool discipline: a multi taken from the pool is not referenced by anyone else and has no calls (freeMulti empties it before Put)"
+//@   modifies nothing
+//@   ensures r0 != nil && fresh(r0) && len(r0.calls) == 0 && ghostat("owed", r0) == 0
+
+//@ func region.(*multi).len
+//@   modifies nothing
+//@   ensures r0 == len(m.calls)
+
+// the client state is shared with the reader goroutine and with callers: its invariants are assumed where trySend needs them
+//@ pred region.clientInv(c) = c.sent != nil && c.conn != nil && sentWF(c) && inflightInv(c) && netRange(c) && failWF(c) && codecWF(c)
+
+//@ func region.(*client).processRPCs
+//@   at call trySend#1 assume-shared clientInv(c) && multiWF(m) && liveDistinct(m) && forall(k, haskey(c.sent, k) ==> c.sent[k] != m)
+//@   at call trySend#1 assert[C03] ghostat("owed", m) == 0
+//@   at call newMulti#2 assert[C03] ghostat("owed", m) == 0
+//@   loop 1 invariant[C03] m != nil && ghostat("owed", m) == 0
+//@   loop 2 invariant[C03] m != nil && ghostat("owed", m) == 0
+//@   loop 3 invariant[C03] m != nil && ghostat("owed", m) == 0
+
+//@ func snappy.snappyCodec.ChunkLen
+//@   modifies nothing
+//@   ensures[C15] r0 == 218421
